@@ -39,6 +39,14 @@ fn scripted(req: Request, log: &Mutex<Vec<String>>) -> Response {
         Response::text(num(c) as u16, v)
     } else if let Some(c) = path.strip_prefix("/e") {
         Response::new(num(c) as u16)
+    } else if let Some(ms) = path.strip_prefix("/gw") {
+        // fetch the body, then take a while over it (holding the received body all the time)
+        if req.body.is_pending() {
+            Response::get_body_and_reprocess(1_000_000)
+        } else {
+            std::thread::sleep(std::time::Duration::from_millis(num(ms)));
+            Response::text(200, v)
+        }
     } else if let Some(m) = path.strip_prefix("/gd") {
         if req.body.is_pending() {
             Response::get_body_and_reprocess(num(m))
@@ -254,7 +262,7 @@ fn digest_wire(w: &[u8]) -> String {
 /// Mode S: a full server; the client writes the script in the pieces given by the schedule
 /// (piece lengths separated by ','; 0 = one write of everything), pausing `pause_ms` between
 /// pieces, then half-closes and reads to EOF.
-fn server(toks: &[&str], idle: bool, revoke_mid: bool, second_server: bool) -> String {
+fn server(toks: &[&str], idle: bool, revoke_mid: bool, second_server: bool, check_at_eof: bool) -> String {
     let small: usize = toks[0].parse().unwrap();
     let tmp = temp_dir::TempDir::new().unwrap();
     let cache = cache_dir(toks[1], &tmp);
@@ -369,6 +377,18 @@ fn server(toks: &[&str], idle: bool, revoke_mid: bool, second_server: bool) -> S
     }
     let _ = client.shutdown(std::net::Shutdown::Write);
     wire.extend_from_slice(&read_all(&mut client));
+    // modes V and R: the connection has ended (the client has read to the end of the stream): an upload's temp file is
+    // gone NOW, not when some abandoned piece of work gets round to dropping it
+    let mut at_eof = 0;
+    if check_at_eof {
+        for _ in 0..30 {
+            at_eof = std::fs::read_dir(tmp.path()).unwrap().count();
+            if at_eof == 0 {
+                break;
+            }
+            std::thread::sleep(std::time::Duration::from_millis(10));
+        }
+    }
     drop(permit);
     let _ = stopped.recv_timeout(std::time::Duration::from_secs(5));
     // give dropped requests a moment to delete their temp files
@@ -386,6 +406,8 @@ fn server(toks: &[&str], idle: bool, revoke_mid: bool, second_server: bool) -> S
     let log = log.lock().unwrap().join(",");
     if idle {
         format!("log=[{log}] wire={} files={files} idle={idle_files}{}", digest_wire(&wire), reset_mark())
+    } else if check_at_eof {
+        format!("log=[{log}] wire={} files={files} busy={at_eof}{}", digest_wire(&wire), reset_mark())
     } else {
         format!("log=[{log}] wire={} files={files}{}", digest_wire(&wire), reset_mark())
     }
@@ -508,10 +530,11 @@ fn main() {
     run_lines_marked(|toks| match toks[0] {
         "tables" => tables(),
         "D" => direct(&toks[1..]),
-        "S" => server(&toks[1..], false, false, false),
-        "I" => server(&toks[1..], true, false, false),
-        "R" => server(&toks[1..], false, true, false),
-        "T" => server(&toks[1..], false, false, true),
+        "S" => server(&toks[1..], false, false, false, false),
+        "I" => server(&toks[1..], true, false, false, false),
+        "R" => server(&toks[1..], false, true, false, true),
+        "T" => server(&toks[1..], false, false, true, false),
+        "V" => server(&toks[1..], false, false, false, true),
         "X" => direct_fsize(&toks[1..]),
         "B" => server_busy(&toks[1..], false),
         "E" => server_busy(&toks[1..], true),
